@@ -354,6 +354,57 @@ def run(ctx):
                                   'and the packed differences overflow a byte' % norm(st.targets[0])))
         else:
             ctx.undec('R-ABSMAX', norm(st.targets[0]), wpk, 'not in the max(abs(.)) form: %s' % norm(st.value)[:60])
+    # ---- R-PACKROUND: both sweeps of pack2d convert a scaled difference to the packed integer in the same way (truncation, as the decoder expects)
+    ctx.rule('R-PACKROUND', 'pack2d: the first-column sweep and the row sweep use the same conversion INT((value - previous) * SCEXP + 127.5)')
+    ic = [st for st in iter_stmts(pk.body) if isinstance(st, ast.Assign) and norm(st.targets[0]) == 'ICVAL']
+
+    def shape_of(e):
+        t = re.sub(r'RVAR\[[^\]]*\]', 'RVAR[.]', norm(e))
+        return t
+    shapes = sorted(set(shape_of(st.value) for st in ic))
+    if len(ic) < 2:
+        ctx.undec('R-PACKROUND', 'ICVAL', wpk, 'fewer than two conversion sites')
+    elif len(shapes) == 1 and shapes[0].startswith('INT('):
+        ctx.ok('R-PACKROUND', 'ICVAL', wpk, '%d sites: %s' % (len(ic), shapes[0]))
+    else:
+        odd = [st for st in ic if not shape_of(st.value).startswith('INT(')] or ic[1:]
+        ctx.violation(Finding('R-PACKROUND', RP, 'pack2d', odd[0], 'the packed integer is computed as %s here but as %s in the other sweep: for a scaled difference in (-128.5, -127.5) one rounds to -1 '
+                              '(stored as byte 255) where the other gives 0, so a steep negative step is decoded about 256 quantisation steps off' % (
+                                  shape_of(odd[0].value)[:60], [x for x in shapes if x != shape_of(odd[0].value)][:1] or shapes[:1])))
+    # ---- R-HEADPAIR: the per-record header fields handed to unpack are indexed alike (each record is decoded with its own VAR1 and EXP)
+    ctx.rule('R-HEADPAIR', 'reader: VAR1 and EXP passed to unpack come from the header table with the same indexing')
+    gvf = mod.func('arlpackedbit._getvar')
+    wgv = 'src/PseudoNetCDF/%s arlpackedbit._getvar' % RP
+    nh = 0
+    for c in ast.walk(gvf):
+        if isinstance(c, ast.Call) and dotted(c.func) == 'unpack' and len(c.args) == 3 and all(isinstance(a, ast.Name) for a in c.args[1:]):
+            defs = []
+            for a in c.args[1:]:
+                d_ = [st for st in iter_stmts(gvf.body) if isinstance(st, ast.Assign) and norm(st.targets[0]) == a.id and st.lineno < c.lineno]
+                defs.append(d_[-1] if d_ else None)
+            if None in defs:
+                continue
+            nh += 1
+            idx = [re.sub(r"\['(VAR1|EXP)'\]", "[F]", norm(d_.value)) for d_ in defs]
+            if idx[0] == idx[1]:
+                ctx.ok('R-HEADPAIR', 'unpack@%d' % c.lineno, wgv, '%s / %s' % (norm(defs[0].value), norm(defs[1].value)))
+            else:
+                ctx.violation(Finding('R-HEADPAIR', RP, 'arlpackedbit._getvar', defs[1], 'the first value is taken as %s but the exponent as %s: records of other times/levels are decoded with the '
+                                      'exponent of another record' % (norm(defs[0].value), norm(defs[1].value))))
+    ctx.floor('unpack calls with header fields', nh, 2)
+    # ---- R-NOSTATE: no mutable default argument that the function fills (the layout of one file must not leak into the next call)
+    from .. import lints as _l20
+    ctx.rule('R-NOSTATE', 'no function of the ARL module mutates a mutable default argument')
+    nmd = 0
+    for q_, f_ in sorted(mod.functions.items()):
+        if '<locals>' in q_:
+            continue
+        nmd += 1
+        for pn, d_, hit in _l20.mutated_mutable_defaults(f_):
+            ctx.violation(Finding('R-NOSTATE', RP, q_, hit, 'parameter %s defaults to a mutable %s that this statement fills: the first call\'s file layout is remembered and silently reused by every later '
+                                  'call without that argument' % (pn, norm(d_))), oid='%s:%s' % (q_, pn))
+    if not any(o['rule'] == 'R-NOSTATE' and o['status'] == 'violated' for o in ctx.obligations):
+        ctx.ok('R-NOSTATE', 'module', 'src/PseudoNetCDF/%s' % RP, '%d functions, no mutated mutable default' % nmd)
     # ---- R-GRIDSLOT: extended-grid offsets: first GRID byte <-> x / NX, second <-> y / NY
     ctx.rule('R-GRIDSLOT', 'inqarlpackedbit: the x offset comes from GRID[0] and is added to NX, the y offset from GRID[1] and is added to NY')
     iq = mod.func('inqarlpackedbit')
